@@ -84,7 +84,7 @@ def build_book_model(spec):
 @st.composite
 def case(draw):
     nb = draw(st.sampled_from([2, 3, 2]))
-    bl = [draw(blocks.system(n_sim=(1, 4), q_hi=60, lags=(0, 2), exos=(0, 1), consts=(0, 1), aliases=(0, 1), leaves=(0, 1),
+    bl = [draw(blocks.system(n_sim=(1, 4), q_hi=60, lags=(0, 2), exos=(0, 1), consts=(0, 2), aliases=(0, 1), leaves=(0, 1),
                              horizon=(1, 4), ic_prob=10, nonlinear=draw(st.booleans()), tols=('1e-6', '1e-8')))
           for _ in range(nb)]
     # every block gets its own variant of the user function f_half and uses it at least once, so that functions
@@ -94,6 +94,10 @@ def case(draw):
         # the optional steady-state initialisation is a property of the solve request as well
         b['steady'] = draw(st.sampled_from([False, False, True]))
         b['max_iter'] = draw(st.sampled_from([None, None, None, 3, 8]))
+        # whole-number parameters are written as such (N = 2): their k=0 value is a Python int inside the solver
+        for e_ in b['eqs']:
+            if e_[2] == 'const' and draw(st.booleans()):
+                e_[1] = draw(st.sampled_from(['2', '3', '10', '1']))
         first = b['eqs'][0]
         first[1] = first[1] + ' + 0.10*f_half(' + first[0] + ')'
     nm = draw(st.sampled_from([1, 1, 2, 0]))
@@ -105,7 +109,7 @@ def case(draw):
     ops = []
     from harness import gen
     for _ in range(draw(st.integers(3, gen.size(10, 20)))):
-        k = draw(st.sampled_from(['solve-block', 'reparse', 'solve-block', 'resolve', 'solve-model', 'log-on', 'log-off',
+        k = draw(st.sampled_from(['solve-block', 'reparse', 'solve-block', 'resolve', 'solve-model', 'log-on', 'log-off', 'log-on',
                                   'trace', 'throwaway', 'reparse', 'solve-econ']))
         if k == 'solve-econ':
             if econs:
